@@ -329,10 +329,27 @@ def _all_same(vc, snap, old):
     return And(*[same(vc, snap[n], old[n]) for n in sorted(old)])
 
 
-@scenario("update", functions=[OM + ".update_known", OM + ".update", OM + ".update_defer", OM + ".rollback", OM + "._notify_subscribers",
-                               OPT + ".set", OPT + ".__deepcopy__", "mitmproxy.utils.signals:_SyncSignal.send", "mitmproxy.utils.signals:_SignalMixin.notify"])
+_UPD_FUNCS = [OM + ".update_known", OM + ".rollback", OM + "._notify_subscribers", OPT + ".set", OPT + ".__deepcopy__",
+              "mitmproxy.utils.signals:_SyncSignal.send", "mitmproxy.utils.signals:_SignalMixin.notify"]
+
+
+@scenario("update_known", functions=_UPD_FUNCS)
+def s_update_known(vc):
+    _update_contract(vc, "update_known")
+
+
+@scenario("update", functions=[OM + ".update"] + _UPD_FUNCS)
 def s_update(vc):
-    method = vc.case("method", ["update_known", "update", "update_defer"])
+    _update_contract(vc, "update")
+
+
+@scenario("update_defer", functions=[OM + ".update_defer"] + _UPD_FUNCS)
+def s_update_defer(vc):
+    _update_contract(vc, "update_defer")
+
+
+def _update_contract(vc, method):
+    """one contract text for the three entry points (one scenario each, so that they are explored in parallel)"""
     keys = vc.case("keys", UPDATES)
     l1_rejects = vc.sym_bool("l1_rejects")
     h = Harness(vc, _std_specs(vc), l1_rejects)
